@@ -40,6 +40,8 @@ impl EnergyIndicators {
 
     /// Calcula indicadores energéticos del modelo
     pub fn compute(model: &Model) -> Self {
+        #[cfg(cteenergymodel_verif)]
+        let _verif_compute = crate::verif_trace::Span::new("COMPUTE");
         let climatezone = model.meta.climate;
         let totradjul = climatedata::total_radiation_in_july_by_orientation(&climatezone);
 
